@@ -10,6 +10,9 @@
 //!   TY      async_graphql_parser::types::Type::new
 //!   DEEP    deeply nested documents parsed in a CHILD PROCESS (the stack overflow cannot be
 //!           caught in-process): `c12 --child-deep <kind> <depth>`
+//!   FRAG    documents with fragment cycles / spread chains executed in a CHILD PROCESS
+//!           (`c12 --child-exec <file> <start>`; static and dynamic schema, batch, stream): the
+//!           recursion-depth walk of schema.rs must answer every document (CrashRec.v)
 //! Exploration (no model, the oracle is "did not panic"; labelled EXPL):
 //!   documents (grammar-aware and byte-level mutations) through parse_query and Schema::execute,
 //!   variables / extensions / operation names through Request deserialisation and execution,
@@ -701,6 +704,200 @@ fn run_child(kind: u32, depth: usize, budget: Duration) -> (u32, String, f64) {
     }
 }
 
+// ---------------------------------------------------- fragment-cycle child --
+fn dyn_schema() -> async_graphql::dynamic::Schema {
+    use async_graphql::dynamic::{Field, FieldFuture, FieldValue, Object, Schema, TypeRef};
+    let nest = Object::new("Nest")
+        .field(Field::new("a", TypeRef::named_nn("Nest"), |_| FieldFuture::new(async { Ok(Some(FieldValue::owned_any(0u8))) })))
+        .field(Field::new("v", TypeRef::named_nn(TypeRef::INT), |_| FieldFuture::new(async { Ok(Some(FieldValue::value(1))) })));
+    let q = Object::new("Q")
+        .field(Field::new("nest", TypeRef::named_nn("Nest"), |_| FieldFuture::new(async { Ok(Some(FieldValue::owned_any(0u8))) })))
+        .field(Field::new("v", TypeRef::named_nn(TypeRef::INT), |_| FieldFuture::new(async { Ok(Some(FieldValue::value(1))) })));
+    Schema::build("Q", None, None).register(nest).register(q).finish().expect("dynamic schema")
+}
+
+/// entry points: 0 Schema::execute (static), 1 dynamic::Schema::execute, 2 execute_batch, 3 execute_stream
+const FRAG_ENTRIES: u32 = 4;
+
+fn frag_exec(schema: &Sch, dynamic: &async_graphql::dynamic::Schema, entry: u32, doc: &str) -> u32 {
+    use futures_util::StreamExt;
+    let errs = match entry {
+        0 => !block_on(schema.execute(Request::new(doc))).errors.is_empty(),
+        1 => !block_on(dynamic.execute(Request::new(doc))).errors.is_empty(),
+        2 => match block_on(schema.execute_batch(BatchRequest::Batch(vec![Request::new(doc), Request::new(doc)]))) {
+            BatchResponse::Single(r) => !r.errors.is_empty(),
+            BatchResponse::Batch(rs) => rs.iter().any(|r| !r.errors.is_empty()),
+        },
+        _ => block_on(schema.execute_stream(Request::new(doc)).collect::<Vec<_>>()).iter().any(|r| !r.errors.is_empty()),
+    };
+    errs as u32
+}
+
+/// child: one line per case of the file, `<entry>\t<json string of the document>`;
+/// prints `<index> <class>` after each case (flushed), so that the parent knows
+/// which case killed the process
+fn child_exec_main(file: &str, start: usize) -> ! {
+    use std::io::Write;
+    let schema: Sch = Schema::build(Q, M, S).finish();
+    let dynamic = dyn_schema();
+    let text = std::fs::read_to_string(file).expect("case file");
+    let out = std::io::stdout();
+    for (i, line) in text.lines().enumerate().skip(start) {
+        let (e, d) = line.split_once('\t').expect("tab");
+        let doc: String = serde_json::from_str(d).expect("json");
+        let c = frag_exec(&schema, &dynamic, e.parse().unwrap(), &doc);
+        let mut o = out.lock();
+        writeln!(o, "{i} {c}").unwrap();
+        o.flush().unwrap();
+    }
+    std::process::exit(0)
+}
+
+/// run all cases in child processes; a case that kills the child (signal) is
+/// class 2, one that does not answer within the budget is class 3; the child is
+/// restarted after it
+fn run_frag_cases(cases: &[(u32, String)], dir: &str, budget: Duration) -> Vec<(u32, String, f64)> {
+    use std::io::{BufRead, BufReader};
+    use std::os::unix::process::ExitStatusExt;
+    use std::process::{Command, Stdio};
+    use std::sync::mpsc;
+    let file = format!("{dir}/c12_frag_cases.txt");
+    let mut text = String::new();
+    for (e, d) in cases {
+        writeln!(text, "{e}\t{}", jstr(d)).unwrap();
+    }
+    std::fs::write(&file, text).expect("write case file");
+    let exe = std::env::current_exe().expect("current_exe");
+    let mut res: Vec<(u32, String, f64)> = Vec::new();
+    while res.len() < cases.len() {
+        let start = res.len();
+        let mut ch = match Command::new(&exe).arg("--child-exec").arg(&file).arg(start.to_string()).stdin(Stdio::null()).stdout(Stdio::piped()).stderr(Stdio::null()).spawn() {
+            Ok(c) => c,
+            Err(e) => {
+                res.push((3, format!("spawn failed: {e}"), 0.0));
+                continue;
+            }
+        };
+        let stdout = ch.stdout.take().unwrap();
+        let (tx, rx) = mpsc::channel::<String>();
+        std::thread::spawn(move || {
+            for l in BufReader::new(stdout).lines().map_while(|l| l.ok()) {
+                if tx.send(l).is_err() {
+                    break;
+                }
+            }
+        });
+        loop {
+            if res.len() == cases.len() {
+                let _ = ch.wait();
+                break;
+            }
+            let t0 = Instant::now();
+            // the first case of a child also pays for building both schemas
+            match rx.recv_timeout(budget) {
+                Ok(l) => {
+                    let mut it = l.split(' ');
+                    let i: usize = it.next().and_then(|x| x.parse().ok()).unwrap_or(usize::MAX);
+                    let c: u32 = it.next().and_then(|x| x.parse().ok()).unwrap_or(9);
+                    if i == res.len() && c <= 1 {
+                        res.push((c, ["answered", "answered with errors"][c as usize].to_string(), t0.elapsed().as_secs_f64()));
+                    } else {
+                        res.push((3, format!("protocol error: {l:?}"), 0.0));
+                    }
+                }
+                Err(mpsc::RecvTimeoutError::Timeout) => {
+                    let _ = ch.kill();
+                    let _ = ch.wait();
+                    res.push((3, "no answer within the budget (killed)".into(), t0.elapsed().as_secs_f64()));
+                    break;
+                }
+                Err(mpsc::RecvTimeoutError::Disconnected) => {
+                    let st = ch.wait().ok();
+                    let what = match st.and_then(|s| s.signal()) {
+                        Some(sig) => format!("child killed by signal {sig}"),
+                        None => format!("child exited {:?} without answering", st.and_then(|s| s.code())),
+                    };
+                    res.push((2, what, t0.elapsed().as_secs_f64()));
+                    break;
+                }
+            }
+        }
+    }
+    let _ = std::fs::remove_file(&file);
+    res
+}
+
+/// documents whose fragment graph matters to the recursion-depth walk
+fn frag_docs(r: &mut Rng, n: usize) -> Vec<(String, bool)> {
+    let mut v: Vec<(String, bool)> = Vec::new();
+    let mut add = |s: String| v.push((s, true));
+    // reachable cycles
+    add("{...f} fragment f on Q{...f}".into());
+    add("{...f} fragment f on Q{__typename ...f}".into());
+    add("{...a} fragment a on Q{...b} fragment b on Q{...a}".into());
+    add("{...a} fragment a on Q{...b} fragment b on Q{...c} fragment c on Q{...a}".into());
+    add("{...f} fragment f on Q{...{...f}}".into());
+    add("{...f} fragment f on Q{... on Q{...f}}".into());
+    add("{... on Q{...f}} fragment f on Q{...{... on Q{...{...f}}}}".into());
+    add("{...f @skip(if:false)} fragment f on Q{...f @include(if:true)}".into());
+    add("{...f} fragment f on Q{...@include(if:true){...f}}".into());
+    add("{nest{...g}} fragment g on Nest{...g}".into());
+    add("{nest{a{...g}}} fragment g on Nest{v ...h} fragment h on Nest{... on Nest{...g}}".into());
+    add("query A{...f} query B{v: __typename} fragment f on Q{...f}".into());
+    add("{__typename ...f ...f} fragment f on Q{...f ...f}".into());
+    // controls: cycle through a field, unreachable cycles, undefined fragment
+    add("{nest{...g}} fragment g on Nest{a{...g}}".into());
+    add("{nest{...g}} fragment g on Nest{v a{...h}} fragment h on Nest{a{...g}}".into());
+    add("{__typename} fragment f on Q{...f}".into());
+    add("{__typename} fragment a on Q{...b} fragment b on Q{...a}".into());
+    add("{...nope}".into());
+    add("{...f} fragment f on Q{...nope}".into());
+    // acyclic chains around the default limit (32): spreads, inline fragments, fields, mixed
+    for k in [1usize, 2, 30, 31, 32, 33, 34, 40] {
+        let mut d = String::from("{...f1}");
+        for i in 1..=k {
+            if i < k {
+                write!(d, " fragment f{i} on Q{{...f{}}}", i + 1).unwrap();
+            } else {
+                write!(d, " fragment f{i} on Q{{__typename}}").unwrap();
+            }
+        }
+        add(d);
+        add(format!("{}__typename{}", "{...".repeat(k) + "{", "}".repeat(k + 1)));
+        add(format!("{{nest{}}}", nested("{a", "}", k.saturating_sub(1), "{v}")));
+        let mut m = String::from("{");
+        for i in 0..k {
+            m.push_str(if i % 2 == 0 { "...{" } else { "... on Q{" });
+        }
+        m.push_str("__typename");
+        m.push_str(&"}".repeat(k + 1));
+        add(m);
+    }
+    // random small fragment graphs (fan-out <= 2, so the walk stays small)
+    for _ in 0..n {
+        let nf = 1 + r.below(4);
+        let mut d = String::from("{");
+        d.push_str(*r.pick(&["...f0", "...{...f0}", "__typename ...f0", "... on Q{...f0}"]));
+        d.push('}');
+        for i in 0..nf {
+            write!(d, " fragment f{i} on Q{{").unwrap();
+            for _ in 0..1 + r.below(2) {
+                let t = r.below(nf + 1);
+                match r.below(5) {
+                    0 => d.push_str("__typename "),
+                    1 => write!(d, "...{{...f{t}}} ").unwrap(),
+                    2 => write!(d, "... on Q{{...f{t}}} ").unwrap(),
+                    3 => write!(d, "...f{t} @skip(if:false) ").unwrap(),
+                    _ => write!(d, "...f{t} ").unwrap(),
+                }
+            }
+            d.push('}');
+        }
+        v.push((d, false));
+    }
+    v
+}
+
 // -------------------------------------------------------------------- main --
 struct Expl {
     out: String,
@@ -739,6 +936,9 @@ fn main() {
     let argv: Vec<String> = std::env::args().collect();
     if argv.get(1).map(String::as_str) == Some("--child-deep") {
         child_main(argv[2].parse().unwrap(), argv[3].parse().unwrap());
+    }
+    if argv.get(1).map(String::as_str) == Some("--child-exec") {
+        child_exec_main(&argv[2], argv[3].parse().unwrap());
     }
     let a = parse_args();
     let thorough = a.n >= 2000;
@@ -991,6 +1191,38 @@ fn main() {
                 }
             }
             writeln!(out, "DEEPMIN\t{kind}\t{{\"kind\":{kind},\"largest_depth_seen_ok\":{lo},\"smallest_depth_seen_crashing\":{hi},\"stack\":\"child main thread (ulimit -s)\"}}").unwrap();
+        }
+    }
+
+    // ---- FRAG: fragment cycles / spread chains, executed in child processes
+    {
+        let docs = frag_docs(&mut rng, if thorough { 120 } else { 16 });
+        let mut cases: Vec<(u32, String)> = Vec::new();
+        let mut terms: Vec<String> = Vec::new();
+        for (i, (d, fixed)) in docs.iter().enumerate() {
+            // the walk is modelled on the parsed document (parsing these small documents is safe in-process)
+            let Ok(parsed) = async_graphql_parser::parse_query(d) else { continue };
+            let mut it = Interner::new();
+            let g = g_document(&mut it, &parsed);
+            // fixed corpus through every entry point, random documents through one each
+            let entries: Vec<u32> = if *fixed { (0..FRAG_ENTRIES).collect() } else { vec![(i as u32) % FRAG_ENTRIES] };
+            for e in entries {
+                // the dynamic schema has no `i`/`l`.. fields but the same Q/Nest shape
+                cases.push((e, d.clone()));
+                terms.push(g.clone());
+            }
+        }
+        std::fs::create_dir_all(&a.out).unwrap();
+        let res = run_frag_cases(&cases, &a.out, Duration::from_secs(20));
+        for (((e, d), g), (c, what, secs)) in cases.iter().zip(terms.iter()).zip(res.iter()) {
+            writeln!(
+                out,
+                "FRAG\t({g}, {e}%N, {c}%N)\t{{\"text\":{},\"impl\":{},\"nontrivial\":{},\"seconds\":{secs:.3}}}",
+                jstr(&format!("{}: {d}", ["Schema::execute", "dynamic::Schema::execute", "Schema::execute_batch", "Schema::execute_stream"][*e as usize])),
+                jstr(what),
+                *c != 0
+            )
+            .unwrap();
         }
     }
 
